@@ -100,7 +100,7 @@ def gen_face_grid(rng, allow_big=False):
 def gen_case(rng, family=None):
     family = family or rng.choice(["pad2d", "pad2d", "pad2d", "faceop", "faceop", "sigeq", "sigeq", "badtable",
                                    "parse", "parse", "metrics", "metrics", "general", "general", "general",
-                                   "registry"])
+                                   "registry", "mwb"])
     words = ["fill", "extend", "periodic"]
     if family in ("pad2d", "faceop"):
         gs = gen_face_grid(rng)
@@ -222,6 +222,17 @@ def gen_case(rng, family=None):
         req = rng.choice([["X", "Y", "Z"], ["Z", "Y", "X"], ["Y", "X", "Z"], ["X", "Y"], ["Y", "Z"]])
         return {"kind": "metrics", "axis_order": axn, "registry": [list(b) for b in reg], "request": req,
                 "op": rng.choice(["get_metric", "integrate", "average"]), "seed": rng.randrange(10**6)}
+    if family == "mwb":
+        # metric-aware operations on data that has FEWER dimensions than the metric (the result broadcasts
+        # against dimensions the input lacks, or the call is refused - identically under every hash seed)
+        axn = ["X", "Y", "Z"]
+        rng.shuffle(axn)
+        ddims = rng.sample(axn, rng.choice([1, 1, 2]))
+        opax = rng.choice(ddims)
+        mdims = [a for a in axn if a == opax or rng.random() < 0.8]
+        return {"kind": "mwb", "axis_order": axn, "data_axes": ddims, "op_axis": opax, "metric_axes": mdims,
+                "op": rng.choice(["interp", "diff", "cumsum", "integrate", "average", "derivative", "cumint"]),
+                "seed": rng.randrange(10**6)}
     if family == "registry":
         # a C16-style registration history; outcome = all get_metric reads after the last call
         from . import eng_c16
@@ -404,6 +415,27 @@ def execute(spec, pi=0):
                 else:
                     res = grid.average(da, spec["request"])
                 return ["ok", _res_digest(res)]
+            if kind == "mwb":
+                n = {"X": 3, "Y": 2, "Z": 4}
+                axes = {a: {"n": n[a], "pos": {"center": a.lower() + "c", "left": a.lower() + "g"}} for a in spec["axis_order"]}
+                gs = {"axes": axes, "extra": {}, "vars": {}, "grid": {"periodic": False, "boundary": "extend"}}
+                oa = spec["op_axis"]
+                for pos in ("c", "g"):
+                    md = [a.lower() + ("c" if a != oa else pos) for a in spec["metric_axes"]]
+                    gs["vars"]["m_" + pos] = {"dims": md, "data": {"gen": "dyadic", "seed": spec["seed"] + ord(pos)}}
+                gs["grid"]["metrics"] = {oa: ["m_c", "m_g"]}
+                ds = worlds.build_ds(gs)
+                grid = worlds.build_grid(ds, gs)
+                dd = [a.lower() + "c" for a in spec["data_axes"]]
+                shape = [n[a] for a in spec["data_axes"]]
+                data = np.random.default_rng(spec["seed"]).integers(1, 9, size=shape).astype("float64")
+                da = xr.DataArray(data, dims=dd, name="T")
+                op = spec["op"]
+                if op in ("interp", "diff", "cumsum"):
+                    res = getattr(grid, op)(da, oa, metric_weighted=[oa])
+                else:
+                    res = getattr(grid, op)(da, oa)
+                return ["ok", _res_digest(res)]
             if kind == "registry":
                 from . import eng_c16
 
@@ -456,6 +488,8 @@ def involved_orders(spec):
         return [list(set(spec["c06"]["gspec"]["axes"]))]
     if kind == "registry":
         return [list(set(["X", "Y"])), list(frozenset(["X", "Y"]))]
+    if kind == "mwb":
+        return [list(set(a.lower() + "c" for a in spec["axis_order"]))]
     return []
 
 
@@ -504,7 +538,8 @@ RULE = (
     "equivalent() in both directions, Grid construction from COMODO (2-4 axes) and SGRID (2-D, 2-D+vertical, 3-D) "
     "metadata followed by order-sensitive two-axis operations, metric registries offering several partitions of "
     "the requested axes with mutually inconsistent (prime) values queried by get_metric/integrate/average, "
-    "C16-style registration histories read back through get_metric, and a slice of the C06 corpus (all operation "
+    "C16-style registration histories read back through get_metric, metric-aware operations on data with fewer "
+    "dimensions than the metric (broadcast or refusal), and a slice of the C06 corpus (all operation "
     "kinds incl. user grid ufuncs) run eagerly. Outcome digest = exception type or values/dtype/dims/coords (Grid: axis "
     "order and position->dim maps). All K x 3 digests of a case must be equal. Non-trivial = at least two of the "
     "interpreters iterated one of the case's involved name sets in different orders. Distinct = digest of the case "
